@@ -67,6 +67,10 @@ pub struct Monitors {
     // restart
     kept_finished: BTreeSet<Tid>,
     restarted: bool,
+    ids_in_kept_journal: (BTreeSet<u32>, BTreeSet<u32>),
+    /// workers whose server-side free-resource accounting drifted after the known overbooking
+    /// event (backlog start after release); cleared when the accounting is exact again
+    drifted_workers: BTreeSet<Wid>,
     pub history_hash: u64,
     pub kinds_seen: BTreeSet<&'static str>,
 }
@@ -594,6 +598,23 @@ impl Monitors {
             }
             Ev::JobCompleted(j) => {
                 *self.job_completed_events.entry(*j).or_insert(0) += 1;
+            }
+            Ev::Submit { job, closed: true } | Ev::JobOpen(job) => {
+                // C11: a new job id after a restart must not be mentioned by the kept journal
+                if self.restarted {
+                    self.count("restart.new_job_ids", 1);
+                    if self.ids_in_kept_journal.0.contains(job) {
+                        viol(out, step, "C11", "I1-job-id-reuse", format!("after a restart the new job got id {job}, which the journal already mentions"));
+                    }
+                }
+            }
+            Ev::WorkerConnected(w) => {
+                if self.restarted {
+                    self.count("restart.new_worker_ids", 1);
+                    if self.ids_in_kept_journal.1.contains(w) {
+                        viol(out, step, "C11", "I2-worker-id-reuse", format!("after a restart the new worker got id {w}, which the journal already mentions"));
+                    }
+                }
             }
             _ => {}
         }
@@ -1511,11 +1532,23 @@ impl Monitors {
             _ => None,
         };
         let before_ok = prev_core.map(|pc| !accounting_errors(pc).iter().any(|e| e.starts_with("overbooked"))).unwrap_or(true);
-        for e in accounting_errors(core) {
+        let errors_now = accounting_errors(core);
+        // a drifted worker is healed as soon as the server's own accounting is exact again
+        let still_off: BTreeSet<Wid> = errors_now
+            .iter()
+            .filter_map(|e| e.split("worker ").nth(1).and_then(|x| x.split(' ').next()).and_then(|x| x.parse().ok()))
+            .collect();
+        self.drifted_workers.retain(|w| still_off.contains(w) && core.workers.iter().any(|x| x.id.as_num() == *w));
+        for e in errors_now {
             if e.starts_with("overbooked") {
+                let ew: Option<Wid> = e.split("worker ").nth(1).and_then(|x| x.split(' ').next()).and_then(|x| x.parse().ok());
                 match prefilled_start_from {
                     Some(w) if e.contains(&format!("worker {w} ")) => {
+                        self.drifted_workers.insert(w);
                         viol(out, step, "C05", "P1-overbooked-by-backlog-start-after-release", e)
+                    }
+                    _ if ew.map(|w| self.drifted_workers.contains(&w)).unwrap_or(false) => {
+                        viol(out, step, "C05", "P1-overbooked-while-accounting-drifted-after-backlog-start", e)
                     }
                     _ if !before_ok => {
                         // the overbooking already exists; it was reported when it arose
@@ -1633,6 +1666,18 @@ impl Monitors {
         let kept: Vec<Ev> = sim.journal.iter().map(|e| conv::ev(&e.payload)).collect();
         self.kept_finished.clear();
         self.max_journal_instance.clear();
+        self.ids_in_kept_journal = (BTreeSet::new(), BTreeSet::new());
+        for e in &kept {
+            match e {
+                Ev::Submit { job, .. } | Ev::JobOpen(job) | Ev::JobCompleted(job) | Ev::JobClose(job) | Ev::JobCancel(job) => {
+                    self.ids_in_kept_journal.0.insert(*job);
+                }
+                Ev::WorkerConnected(w) | Ev::WorkerLost(w, _) => {
+                    self.ids_in_kept_journal.1.insert(*w);
+                }
+                _ => {}
+            }
+        }
         let mut running_on: BTreeMap<Tid, Vec<Wid>> = BTreeMap::new();
         let mut crash: BTreeMap<Tid, (u32, u32)> = BTreeMap::new(); // (strict, lenient) counts
         for e in &kept {
